@@ -192,6 +192,10 @@ func FetchType(typ reflect.Type, typMap map[string]reflect.Type) {
 		return
 	}
 
+	if _, ok := typMap[typ.Name()]; ok {
+		// already visited: a self-referential type must not be walked again
+		return
+	}
 	typMap[typ.Name()] = typ
 	for i := 0; i < typ.NumField(); i++ {
 		FetchType(typ.Field(i).Type, typMap)
